@@ -34,7 +34,8 @@ type PipeCase struct {
 	Delays   []int      `json:"delays"`   // per fake step: 0 none, 1 yield, 2 sleep 20us, 3 sleep 300us (used when Gated is false)
 	Gated    bool       `json:"gated"`
 	Procs    int        `json:"procs"`
-	SlowFin  []bool     `json:"slowfin"` // target k sleeps after its channel closed
+	SlowFin  []bool     `json:"slowfin"`          // target k sleeps after its channel closed
+	Breaks   []int      `json:"breaks,omitempty"` // feature indexes at which a new table starts: ProcessFeatures is called once per table with the same targets, like main.go does
 }
 
 // ---------------------------------------------------------------------------------------------------------------
@@ -144,7 +145,7 @@ func (t *fakeTarget) WriteFeatures(ch <-chan processing.Feature) {
 		time.Sleep(3 * time.Millisecond)
 	}
 	_ = t.table
-	atomic.StoreInt32(&t.done, 1)
+	atomic.AddInt32(&t.done, 1)
 }
 
 func (t *fakeTarget) snapshot() []received {
@@ -276,15 +277,31 @@ func (r *pipeRun) start() {
 	for _, ft := range r.targets {
 		targets[ft.id] = ft
 	}
+	// the feature stream is cut into tables; ProcessFeatures runs once per table with the same targets
+	var tables [][]*fakeFeature
+	prev := 0
+	for _, b := range r.c.Breaks {
+		if b > prev && b < len(r.src.feats) {
+			tables = append(tables, r.src.feats[prev:b])
+			prev = b
+		}
+	}
+	tables = append(tables, r.src.feats[prev:])
 	go func() {
-		processing.ProcessFeatures(r.src, targets, r.snapFunc)
-		// the moment it returned: every target must be done, and the caller moves on to the next table like main.go
 		msg := ""
-		for _, ft := range r.targets {
-			if atomic.LoadInt32(&ft.done) != 1 {
-				msg += fmt.Sprintf("target %d had not finished when ProcessFeatures returned; ", ft.id)
+		for k, feats := range tables {
+			src := &fakeSource{feats: feats, g: r.src.g, d: r.src.d}
+			processing.ProcessFeatures(src, targets, r.snapFunc)
+			// the moment it returned: every target must be done with this table, and the caller moves on to the next table like main.go
+			for _, ft := range r.targets {
+				if n := atomic.LoadInt32(&ft.done); int(n) != k+1 {
+					msg += fmt.Sprintf("target %d had finished %d of %d tables when ProcessFeatures returned for table %d; ", ft.id, n, k+1, k+1)
+				}
+				ft.table = fmt.Sprintf("table-%d", k+1)
 			}
-			ft.table = "next"
+			if msg != "" {
+				break
+			}
 		}
 		r.returned <- msg
 	}()
